@@ -95,7 +95,7 @@ theorem minimize_terminates (d : Dfa) : ∃ p, Dfa.minimizePartition d = some p 
 labels: when the work list is empty, two states of one class have, under every label, successors in one
 class or no successor at all; the classes are non-empty, pairwise disjoint, cover the states and do not mix
 final with non-final states.  This is the Hopcroft invariant, proved for the loop as written (including the
-`w.contains(y)` / smaller-half update and the loose label match of `get_parent_states`) -/
+`w.contains(y)` update of the work list and the range-containment label match of `get_parent_states`) -/
 theorem refinement_is_stable (d : Dfa) (h : Dfa.TreeInv d) (hal : Dfa.AlphabetCovers d)
     (hs : ∀ l ∈ d.alphabet, l.Simple) : ∃ p, Dfa.minimizePartition d = some p ∧ Dfa.Stable d p :=
   Dfa.minimizePartition_stable h hal hs
@@ -266,6 +266,20 @@ theorem printing_preserves_language_ci (cap esc : Bool) (e : Expr) (hwf : e.WF) 
     ∃ P, Spec.parse (ciPrefix true ++ fmtRegExp (cfgPlain cap esc) e) = some (⟨true, false⟩, P) ∧
       (Spec.fullMatch true P s = true ↔ ∃ w, e.lang w ∧ atomsDen true (atomsOf w) s) :=
   printed_accepts_ci true cap esc e hwf s hs
+
+/-- **S8/S9 in verbose mode** the verbose text of every well-formed expression (any anchors, with or without capturing
+groups, `-e`, `-i`) is accepted under its `(?x)` / `(?ix)` flag and the compiled pattern matches exactly the strings spelling
+the expression's language — it is the pattern the non-verbose text is parsed to -/
+theorem printing_preserves_language_verbose (i cap esc ns ne : Bool) (e : Expr) (hwf : e.WF) (s : Str) (hs : ∀ c ∈ s, Scalar c) :
+    ∃ P, Spec.parse (fmtRegExp (cfgVerb cap esc i ns ne) e) = some (⟨i, true⟩, P) ∧
+      (Spec.fullMatch i P s = true ↔ ∃ w, e.lang w ∧ atomsDen i (atomsOf w) s) :=
+  printed_accepts_verbose i cap esc ns ne e hwf s hs
+
+/-- **S8/S9 with any anchors** (not verbose) -/
+theorem printing_preserves_language_anchors (i cap esc ns ne : Bool) (e : Expr) (hwf : e.WF) (s : Str) (hs : ∀ c ∈ s, Scalar c) :
+    ∃ P, Spec.parse (ciPrefix i ++ fmtRegExp (cfgAnch cap esc ns ne) e) = some (⟨i, false⟩, P) ∧
+      (Spec.fullMatch i P s = true ↔ ∃ w, e.lang w ∧ atomsDen i (atomsOf w) s) :=
+  printed_acceptsA i cap esc ns ne e hwf s hs
 
 /-- the expression `Expression::from` returns for an acyclic automaton with plain labels is well-formed -/
 theorem elimination_result_wellformed (cap esc : Bool) (d : Dfa) (hd : LabelsBs d) (hdfs : DfsOK d d.dfs)
